@@ -1,7 +1,8 @@
 // C07 mode: recorded operation traces of the real font installers (operation tables, and strace on the
 // production table) are replayed over the power-loss model
-//   K  by the extracted Coq checks (check_trace / durable_after) and
-//   O  by an independent Go implementation that enumerates every crash point and every admissible loss.
+//
+//	K  by the extracted Coq checks (check_trace / durable_after) and
+//	O  by an independent Go implementation that enumerates every crash point and every admissible loss.
 package main
 
 import (
@@ -12,6 +13,7 @@ import (
 	"os/exec"
 	"path/filepath"
 	"regexp"
+	"sort"
 	"strings"
 
 	"github.com/pdfcpu/pdfcpu/pkg/font"
@@ -290,8 +292,10 @@ func wireListing(init map[string]map[string][]byte) string {
 		for n, b := range fs {
 			l = append(l, fmt.Sprintf("%s:%x", n, b))
 		}
+		sort.Strings(l)
 		ds = append(ds, d+"="+strings.Join(l, ","))
 	}
+	sort.Strings(ds)
 	return strings.Join(ds, ";")
 }
 func wireReps(m map[string][]byte) string {
@@ -299,6 +303,7 @@ func wireReps(m map[string][]byte) string {
 	for n, b := range m {
 		l = append(l, fmt.Sprintf("%s:%x", n, b))
 	}
+	sort.Strings(l)
 	return strings.Join(l, ",")
 }
 
